@@ -180,6 +180,25 @@ func doPackage(dir string, imap map[string]string, timers, maprange, yield bool,
 							die("%s: select on a timer channel is not supported by the Engine-A rewriter", fset.Position(cc.Pos()))
 						}
 					}
+				case *ast.RangeStmt:
+					// for v := range ticker.C { ... }  ->  for { v := ticker.RecvC(); ... }
+					if sel, ok := x.X.(*ast.SelectorExpr); ok && sel.Sel.Name == "C" {
+						if x.Value != nil {
+							die("%s: range over a timer channel with two variables", fset.Position(x.Pos()))
+						}
+						hdr := "for { "
+						if x.Key != nil {
+							if x.Tok != token.DEFINE {
+								hdr += text(x.Key) + " = " + text(sel.X) + ".RecvC();"
+							} else {
+								hdr += text(x.Key) + " := " + text(sel.X) + ".RecvC(); _ = " + text(x.Key) + ";"
+							}
+						} else {
+							hdr += text(sel.X) + ".RecvC();"
+						}
+						edits = append(edits, edit{off(x.For), off(x.Body.Lbrace) + 1, hdr})
+						total["timer-range"]++
+					}
 				case *ast.UnaryExpr:
 					if x.Op != token.ARROW {
 						return true
